@@ -124,6 +124,14 @@ class Tmatrix(ScatteringTheory):
         ndgs = 5
         alpha = scatterer.rotation[2] * 180 / np.pi
         beta = scatterer.rotation[1] * 180 / np.pi
+        # the compiled code ends the interpreter unless 0 <= alpha <= 360 and
+        # 0 <= beta <= 180: bring the angles into that range (the axis at
+        # polar angle -beta, azimuth alpha is the one at beta, alpha + 180)
+        beta = beta % 360
+        if beta > 180:
+            beta = 360 - beta
+            alpha = alpha + 180
+        alpha = alpha % 360
 
         # FIXME: Why does the incident polarization have to be set to  (1, 0)?
         thet0 = 0
